@@ -79,7 +79,8 @@ class G:
             params.append((pool[i] if r.random() < 0.5 else ["PA", "QB", "RC"][i], r.randint(0, 9) if i >= np - ndef else None))
         self.in_func = True; self.names = list(VARS) + [p for p, _ in params if p not in VARS] * 2
         body = self.block(2, r.randrange(1, 4))
-        if r.random() < 0.8: body.append(("ret", self.expr(1, False)) if r.random() < 0.7 else ("assign", "Result", self.expr(1, False)))
+        # every function ends by yielding a value (a call of a function that yields none has no specified value inside an expression)
+        body.append(("ret", self.expr(1, False)) if r.random() < 0.7 else ("assign", "Result", self.expr(1, False)))
         self.in_func = False; self.names = list(VARS)
         f = dict(name=name, params=params, ndef=ndef, body=body)
         return f
@@ -164,6 +165,9 @@ FIXED = [
     ("INT I=0 FOR(INT J=0; 1==1; J++){ I++ } PRINT(I) n61", "(() ((decl I 0) (for J 0 (b 5 1 1) (inc J 1) ((inc I 1))) (print I) (note 61)))"),
     ("FUNCTION F(A){RETURN(A+1)} FUNCTION G(A){RETURN(A+100)} PRINT(G(1)) PRINT(F(1))", "(((fn F ((A _)) ((ret (b 3 A 1)))) (fn G ((A _)) ((ret (b 3 A 100))))) ((print (call G (1))) (print (call F (1)))))"),
     ("FUNCTION F(A){ WHILE(1==1){ IF(A>3){ RETURN(A) } A++ } } PRINT(F(1))", "(((fn F ((A _)) ((while (b 5 1 1) ((if (b 7 A 3) ((ret A)) ()) (inc A 1)))))) ((print (call F (1)))))"),
+    # a call made as a statement inside a function that is itself being evaluated inside an expression; then a call with omitted arguments
+    ("INT IA=3; FUNCTION FA(JB=7){ PRINT(JB); RETURN((JB * IA)); } FUNCTION FB(PA){ FA(); RETURN(1); } INT ND=(FB(5) * FB(5)); PRINT(ND)",
+     "(((fn FA ((JB 7)) ((print JB) (ret (b 0 JB IA)))) (fn FB ((PA _)) ((call FA ()) (ret 1)))) ((decl IA 3) (decl ND (b 0 (call FB (5)) (call FB (5)))) (print ND)))"),
     ("INT X=5 FUNCTION F(A=2){ INT X=A+1 X=X+1 Result=X } PRINT(F()) PRINT(X)", "(((fn F ((A 2)) ((decl X (b 3 A 1)) (assign X (b 3 X 1)) (assign Result X)))) ((decl X 5) (print (call F ())) (print X)))"),
 ]
 
